@@ -200,6 +200,8 @@ def rule_zero_cost(ctx, px, rule_id: str):
     def widths(e):
         """set of bit lengths an expression over t.bit_length admits, None if not of that shape"""
         e = resolve(e)
+        if isinstance(e, ast.Call) and isinstance(e.func, ast.Name) and e.func.id == "bool" and len(e.args) == 1 and not e.keywords:
+            return widths(e.args[0])     # bool(x) admits what x admits
         if isinstance(e, ast.Attribute) and e.attr == "standard_bit_length" and isinstance(e.value, ast.Name) and e.value.id == t:
             return {8, 16, 32, 64}
         if isinstance(e, ast.Compare) and len(e.ops) == 1 and isinstance(e.left, ast.Attribute) and e.left.attr == "bit_length" \
